@@ -2098,6 +2098,12 @@ func (m *repoManager) findMatch(kvv kvVersions, v dvid.VersionID) (*storage.KeyV
 		case 0:
 			return nil, 0, nil
 		case 1:
+			// The last match seen may be one of the invalidated versions removed above,
+			// so use the match of the one remaining version.
+			for fv := range foundVs {
+				foundKV = kvv[fv].kv
+				foundV = fv
+			}
 			if foundKV.K == nil {
 				return nil, 0, fmt.Errorf("found nil key in ascending version path for kv: %v", foundKV)
 			}
